@@ -899,6 +899,14 @@ def getattr_(I, o, name, node=None):
                 if m.is_classmethod:
                     return BoundMethod(m, ClassRef(o.cls))
                 return BoundMethod(m, o)
+            found = o.cls.find_class_attr(name)
+            if found is not None and found[0].is_dataclass and isinstance(found[1], ast.Call) and ast.unparse(found[1].func) in ("field", "dataclasses.field"):
+                fac = next((kw.value for kw in found[1].keywords if kw.arg == "default_factory"), None)
+                if fac is not None:       # a dataclass instance that never assigned the field holds what its constructor put there: factory()
+                    from .interp import Env
+                    val = I.call(I.eval(fac, Env(), found[0].module, found[0]), [], {})
+                    o.fields[name] = val
+                    return val
             v = I.class_attr(o.cls, name)
             if v is not UNBOUND:
                 return v
